@@ -12,11 +12,14 @@ def regenerate():
     src = common.REPO / 'rbql-py' / 'rbql' / 'rbql_engine.py'
     try:
         r = shared_state_scan.scan(str(src))
-        text = shared_state_scan.to_lean(r, 'rbql-py/rbql/rbql_engine.py')
+        fe = shared_state_scan.scan_frontends(str(src.parent))
+        text = shared_state_scan.to_lean(r, 'rbql-py/rbql/rbql_engine.py', fe)
     except Exception as e:   # the source no longer parses / was removed: the obligation cannot be generated
         text = ('-- GENERATED: tools/shared_state_scan.py FAILED on rbql-py/rbql/rbql_engine.py: %s\n'
                 'namespace Rbql.Generated\ndef moduleLevelMutable : List String := []\ndef globalsDeclared : List String := []\n'
-                'def writtenOnQueryPath : List String := ["<scan failed>"]\ndef classLevelMutable : List String := []\ndef mutableDefaults : List String := []\nend Rbql.Generated\n' % str(e)[:200].replace('\n', ' '))
+                'def writtenOnQueryPath : List String := ["<scan failed>"]\ndef classLevelMutable : List String := []\ndef mutableDefaults : List String := []\ndef sharedInstancesUsed : List String := []\n'
+                'def frontendWrittenOnQueryPath : List String := ["<scan failed>"]\ndef frontendClassLevelMutable : List String := []\ndef frontendMutableDefaults : List String := []\n'
+                'def frontendSharedInstancesUsed : List String := []\nend Rbql.Generated\n' % str(e)[:200].replace('\n', ' '))
     common.write_if_changed(common.LEAN_DIR / 'Rbql' / 'Generated' / 'SharedState.lean', text)
     regenerate_row_flow()
 
